@@ -83,7 +83,9 @@ class Elem:
                 fib = {f: (f * 2 + 1) % (n + 1) for f in flows if f % 4 != 3}
                 self.dev = FIBDemux(outs=list(self.branch_taps), fib=dict(fib), default_out=self.default_tap)
                 fib_at = self._refib(spec, fib, {f: (f + 2) % (n + 1) for f in flows if f % 4 != 0}, self.dev)
-                self.route = lambda pkt: (self.branch_taps[fib_at(pkt)[pkt.flow_id]]
+                ends = self._ends(spec, flows, self.dev)
+                self.route = lambda pkt: (ends[pkt.flow_id] if pkt.flow_id in ends else
+                                          self.branch_taps[fib_at(pkt)[pkt.flow_id]]
                                           if pkt.flow_id in fib_at(pkt) and fib_at(pkt)[pkt.flow_id] < n else self.default_tap)
             elif t == "simpleswitch":
                 self.dev = SimplePacketSwitch(env, n, rate, spec.get("qlimit", 4), element_id=name)
@@ -103,10 +105,11 @@ class Elem:
                 for i, p in enumerate(self.dev.ports):
                     p.out = self.branch_taps[i]
                 fib_at = self._refib(spec, fib, {f: (f + 1) % n for f in flows}, self.dev.demux)
-                self.route = lambda pkt: self.branch_taps[fib_at(pkt)[pkt.flow_id]]
+                ends = self._ends(spec, flows, self.dev.demux)
+                self.route = lambda pkt: ends[pkt.flow_id] if pkt.flow_id in ends else self.branch_taps[fib_at(pkt)[pkt.flow_id]]
                 self.counted = lambda: sum(p.packets_dropped for p in self.dev.egress_ports)
             self.no_route = lambda pkt: self.route(pkt) is None
-            self.outs = list(self.branch_taps) + ([self.default_tap] if self.default_tap else [])
+            self.outs = list(self.branch_taps) + ([self.default_tap] if self.default_tap else []) + getattr(self, "end_taps", [])
         else:
             raise HarnessError(t)
         if self.single_out:
@@ -114,6 +117,18 @@ class Elem:
             self.dev.out = self.out
             self.outs = [self.out]
         self.inp = lab.tap(f"{name}.in", self.dev)
+
+    def _ends(self, spec, flows, demux):
+        """end devices (local sinks) registered on the demux after construction, the way applications attach their hosts: they
+        take precedence over the table and belong to this element only"""
+        ends = {}
+        if spec.get("ends"):
+            for f in flows:
+                if f % 3 == spec["ends"] % 3:
+                    ends[f] = self.lab.tap(f"{self.name}.end{f}")
+                    demux.ends[f] = ends[f]
+            self.end_taps = list(ends.values())
+        return ends
 
     def _refib(self, spec, fib1, fib2, demux):
         """the forwarding table is moved at an instant that is no arrival instant (odd multiple of 2^-11): packets that enter
@@ -515,6 +530,7 @@ def elem_spec(types=ELEMENT_TYPES):
         if t == "VC":
             base.update(vt0=st.booleans())
         if t in ("fibdemux", "fairswitch"):
+            base.update(ends=st.sampled_from([0, 0, 1, 2, 3]))
             base.update(refib=st.sampled_from([0, 0, 1, 129, 513, 1025, 2049]), refib_inplace=st.booleans())
         if t in ("flowdemux", "fibdemux", "simpleswitch", "fairswitch"):
             base.update(nouts=st.integers(1, 4), default=st.booleans(), qlimit=st.sampled_from([2, 4, 50]),
